@@ -16,6 +16,7 @@ import (
 	"io"
 	"math/rand"
 	"runtime"
+	"runtime/debug"
 	"sort"
 	"strings"
 	"sync"
@@ -222,6 +223,7 @@ func run(sc kit.Scenario, out *kit.Out) error {
 	var entries []entry
 	var root boson.Address
 	haveRoot := false
+	bigFile := false
 
 	out.Begin(sc.Scn, kit.Ev{"enc": enc, "err": "", "panicked": false})
 	for _, op := range sc.Ops {
@@ -249,6 +251,7 @@ func run(sc kit.Scenario, out *kit.Out) error {
 			default:
 				return fmt.Errorf("bad tail class %d", tail)
 			}
+			bigFile = bigFile || a > 0
 			if r.total() == 0 {
 				return fmt.Errorf("scenario %d: file without chunks", sc.Scn)
 			}
@@ -380,6 +383,10 @@ func run(sc kit.Scenario, out *kit.Out) error {
 			return fmt.Errorf("unknown op %v", op["op"])
 		}
 		out.Emit(ev)
+		if len(st.m) > 0 && bigFile {
+			// a > 2 GiB file is read into memory as a manifest candidate by every observation
+			debug.FreeOSMemory()
+		}
 	}
 	return nil
 }
